@@ -132,6 +132,9 @@ type c31Stream struct {
 var c31Chunks = []string{
 	"\x1b", "\x1b", "\x1b[", "\x1b[", "\x1bO", "\x1b\x1b[", "\x1b\x1bO", "\x1b[<", "\x1b[M", "\x1b[200~", "\x1b[201~",
 	"[", "O", "<", "M", "m", "R", "~", ";", ";", "0", "1", "2", "5", "9", "27", "200", "99999999999999999999",
+	// numbers around the wrap-around points of the accumulating argument parser
+	"9223372036854775807", "9223372036854775808", "9999999999999999999", "18446744073709551615", "18446744073709551616", "18446744073709551617", "2147483648", "4294967295",
+	"\x1b[1;9999999999999999999A", "\x1b[5;9223372036854775808~", "\x1b[27;18446744073709551615;9~", "\x1b[27;5;9223372036854775809~", "\x1b[9223372036854775808;5~", "\x1b[<9223372036854775808;3;4M",
 	"A", "B", "H", "F", "Z", "P", "a", "d", "$", "^", "@", " ", "!", "\x7f", "\x00", "\x01", "\t", "\n", "\r", "\x1d", "\x1e", "\x1f",
 	"\xc3", "\xc3\xa9", "\xe4", "\xe4\xb8", "\xe4\xb8\x96", "\xf0", "\xf0\x9f", "\xf0\x9f\x98", "\xf0\x9f\x98\x80",
 	"\x80", "\xbf", "\xc0", "\xf8", "\xff", "\xed\xa0\x80", "\xf4\x90\x80\x80",
@@ -142,8 +145,13 @@ func c31GenStream(t *rapid.T) c31Stream {
 	n := rapid.IntRange(1, 12).Draw(t, "chunks")
 	var sb strings.Builder
 	for i := 0; i < n; i++ {
-		if rapid.IntRange(0, 9).Draw(t, "raw?") == 0 {
+		if r := rapid.IntRange(0, 11).Draw(t, "raw?"); r == 0 {
 			sb.WriteByte(rapid.Byte().Draw(t, "raw"))
+		} else if r == 1 {
+			// a run of digits of a length around the width of machine integers
+			for k, nd := 0, rapid.SampledFrom([]int{1, 2, 3, 10, 18, 19, 19, 20, 21}).Draw(t, "ndigits"); k < nd; k++ {
+				sb.WriteByte(byte('0' + rapid.IntRange(0, 9).Draw(t, "digit")))
+			}
 		} else {
 			sb.WriteString(rapid.SampledFrom(c31Chunks).Draw(t, "chunk"))
 		}
